@@ -205,6 +205,75 @@ def run_history(args):
     return ('ok', cut or ('keys not taken as one command at step %d' % spill if spill is not None else None), nchk, len(steps), wit)
 
 
+def two_buffer_history(args):
+    """two buffers, command lines that edit and switch (`mod|e! other`, `e! other|mod`): every line that edits a buffer is ONE undo
+    step of that buffer, whichever buffer is current when the line ends"""
+    vi, idx = args
+    R = rng('c04', 'twobuf', idx)
+    texts = {'f1': ['one', 'two', 'three'], 'f2': ['uno', 'dos']}
+    stack = {k: [list(v)] for k, v in texts.items()}
+    pos = {'f1': 0, 'f2': 0}
+    cur = 'f1'
+    script = b''
+    exp = []
+    tagc = 0
+
+    def mod(buf):
+        nonlocal tagc
+        tagc += 1
+        t = list(stack[buf][pos[buf]])
+        tag = chr(65 + tagc % 26) + chr(97 + (tagc // 26) % 26)
+        if R.random() < 0.5:
+            t[0] = tag + t[0]
+            cmd = '1s/^/%s/' % tag
+        else:
+            t[-1] = t[-1] + tag
+            cmd = '$s/$/%s/' % tag
+        del stack[buf][pos[buf] + 1:]
+        stack[buf].append(t)
+        pos[buf] += 1
+        return cmd
+
+    other = lambda b: 'f2' if b == 'f1' else 'f1'
+    for k in range(R.randint(4, 16)):
+        x = R.random()
+        if x < 0.25:
+            line = mod(cur)
+        elif x < 0.45:
+            line = mod(cur) + '|e! ' + other(cur)
+            cur = other(cur)
+        elif x < 0.6:
+            cur = other(cur)
+            line = 'e! ' + cur + '|' + mod(cur)
+        elif x < 0.8:
+            line = 'u'
+            if pos[cur] > 0:
+                pos[cur] -= 1
+        elif x < 0.9:
+            line = 'redo'
+            if pos[cur] + 1 < len(stack[cur]):
+                pos[cur] += 1
+        else:
+            cur = other(cur)
+            line = 'e! ' + cur
+        script += line.encode() + b'\nw! d%d\n' % k
+        exp.append((line, cur, ''.join(l + '\n' for l in stack[cur][pos[cur]]).encode()))
+    r, d = common.run_ex(vi, script, files={'f1': b'one\ntwo\nthree\n', 'f2': b'uno\ndos\n'}, timeout=60)
+    obs = [common.readf(d, 'd%d' % k) for k in range(len(exp))]
+    common.rmcase(d)
+    wit = {'index': idx, 'script': script}
+    if r.timed_out or common.san_report(r) or any(o is None for o in obs):
+        return ('inconclusive', None, wit, 0)
+    n = 0
+    for k, ((line, cb, want), got) in enumerate(zip(exp, obs)):
+        if line in ('u', 'redo'):
+            n += 1
+        if got != want:
+            return ('violation', ('%s:two-buffers' % ('undo' if line == 'u' else 'redo' if line == 'redo' else 'edit'),
+                                  'lines %s: after line #%d %r buffer %s is %r, expected %r' % ([e[0] for e in exp[:k + 1]], k, line, cb, common.show(got, 80), common.show(want, 80))), wit, n)
+    return ('ok', None, wit, n)
+
+
 def run(tier, V):
     exe = build('asan', probe=PROBE)
     vi = build('asan')
@@ -242,12 +311,21 @@ def run(tier, V):
                 cuts[c] = cuts.get(c, 0) + 1
             if n >= 3 and len(samples) < 3:
                 samples.append({'mode': wit['mode'], 'steps': [s[1] for s in wit['steps']][:12]})
-    cov = {'probe': tot, 'probe_depth': depth, 'probe_ops': ['edit[%d,%d)<-%r' % (b, e, t) if k == 0 else ['', 'newcmd', 'undo', 'redo'][k] for k, b, e, t in OPS],
+    ntb = 300 if tier == 'quick' else 5000
+    tbchk = 0
+    for status, info, wit, k in pmap(two_buffer_history, [(vi, common.seed() * 7368787 + i) for i in range(ntb)]):
+        tbchk += k
+        if status == 'violation':
+            V.violation('binary:ex:' + info[0], 'two-buffer history #%d: %s' % (wit['index'], info[1]), wit)
+        elif status == 'inconclusive':
+            V.inconclusive += 1
+    nchk += tbchk
+    cov = {'two_buffer_histories': ntb, 'two_buffer_undo_redo_checked': tbchk, 'probe': tot, 'probe_depth': depth, 'probe_ops': ['edit[%d,%d)<-%r' % (b, e, t) if k == 0 else ['', 'newcmd', 'undo', 'redo'][k] for k, b, e, t in OPS],
            'binary_histories': len(hres), 'binary_undo_redo_checked': nchk, 'binary_histories_fully_checked': nfull, 'binary_history_cuts': cuts,
            'evaluations': tot.get('nseq', 0) + len(hres), 'distinct_nontrivial': tot.get('nundo', 0) + tot.get('nredo', 0) + nchk, 'exhaustive': True,
            'rule': ('probe: ALL sequences of length %d over 9 operations (6 splices, new-command, undo, redo) on buffers of 0..3 lines, text compared with a snapshot-stack model after every op '
                     '(lbuf_edit/lbuf_undo/lbuf_redo/lbuf_modified), plus in quick a 1/16 slice of length %d; real binary: %d random ex and %d random vi histories of 5-30 steps mixing single edits, counted '
-                    'commands, :g, :s, filters, multi-line inserts, J, puts, compound lines with u/redo/^R walks past both ends, dump after every step, stack built from observed texts.  '
+                    'commands, :g, :s, filters, multi-line inserts, J, puts, compound lines with u/redo/^R walks past both ends, dump after every step, stack built from observed texts; + two-buffer ex histories whose command lines edit and switch buffers (one undo step per line and buffer).  '
                     'non-trivial = an undo or redo whose resulting text was compared.' % (depth, depth + 1, nh, nh)),
            'samples': samples or [{'note': 'no history reached 3 checks'}]}
     assumptions = ['an undo step is the set of splices between two lbuf_modified() calls (what ex_command()/vi() do once per top-level command)',
